@@ -85,7 +85,7 @@ def havoc_slice(ip, st, sl):
 def require(ip, frame, bb, st, kind, op, l, r, detail):
     """obligation  l op r ; afterwards assume it (execution continues only if it holds)"""
     ok = st.prove_cmp(op, l, r)
-    ip.oblige(kind, frame, bb, ok, "%s: need %s %s %s" % (detail, st.describe(l), op, st.describe(r)), st)
+    ip.oblige(kind, frame, bb, ok, "%s: need %s %s %s" % (detail, st.describe(l), op, st.describe(r)), st, label=detail)
     try:
         st.assume_cmp(op, l, r)
     except Infeasible:
@@ -707,6 +707,36 @@ def c_fallible_write(ip, frame, bb, st, callee, args, dty):
     return [(st, mk(RES, 0, UNIT)), (b, mk(RES, 1, VAgg("struct", "util::OutOfMemory", ())))]
 
 
+def _drop_deref_cache(st, ref):
+    if isinstance(ref, VRef):
+        for k in [k for k in st.ghost if isinstance(k, tuple) and k and k[0] == "deref" and k[1] == ref.root]:
+            del st.ghost[k]
+
+
+def c_buffer_write(ip, frame, bb, st, callee, args, dty):
+    _drop_deref_cache(st, args[0])
+    return c_fallible_write(ip, frame, bb, st, callee, args, dty)
+
+
+def c_buffer_unit(ip, frame, bb, st, callee, args, dty):
+    _drop_deref_cache(st, args[0])
+    return [(st, UNIT)]
+
+
+def c_deref(ip, frame, bb, st, callee, args, dty):
+    """Deref::deref of a sealed Buffer is a pure function of the buffer (both impls are checked for that
+    in C18): two derefs with no write to the buffer in between denote the same slice"""
+    r = args[0]
+    if isinstance(r, VRef):
+        key = ("deref", r.root, r.steps)
+        v = st.ghost.get(key)
+        if v is None:
+            v = ip.fresh_value(st, dty, "deref")
+            st.ghost[key] = v
+        return [(st, v)]
+    return [(st, ip.fresh_value(st, dty, "deref"))]
+
+
 def c_unit(ip, frame, bb, st, callee, args, dty):
     return [(st, UNIT)]
 
@@ -818,11 +848,11 @@ def install(ip):
     E["std::vec::Vec::<T, A>::try_reserve"] = s_vec_try_reserve
     E["std::slice::<impl [T]>::to_vec"] = s_to_vec
     C = ip.contracts
-    C[("util::Buffer", "push")] = c_fallible_write
-    C[("util::Buffer", "extend_from_slice")] = c_fallible_write
-    C[("util::Buffer", "clear")] = c_unit
-    C[("util::Buffer", "truncate")] = c_unit
-    C[("std::ops::Deref", "deref")] = c_fresh
+    C[("util::Buffer", "push")] = c_buffer_write
+    C[("util::Buffer", "extend_from_slice")] = c_buffer_write
+    C[("util::Buffer", "clear")] = c_buffer_unit
+    C[("util::Buffer", "truncate")] = c_buffer_unit
+    C[("std::ops::Deref", "deref")] = c_deref
     C[("std::default::Default", "default")] = c_fresh
     C[("std::iter::Iterator", "next")] = c_fresh
     C[("std::iter::Iterator", "map")] = c_fresh
@@ -834,6 +864,7 @@ def install(ip):
     C[("util::ByteSourceErr", "is_would_block")] = c_fresh
     C[("std::io::Read", "read_exact")] = c_read_exact
     C[("embedded_hal::serial::Read", "read")] = c_fresh
+    C[("embedded_hal::prelude::_embedded_hal_serial_Read", "read")] = c_fresh
     C[("SmlParse", "parse_from")] = c_fresh
     C[("std::ops::FnMut", "call_mut")] = c_call
     C[("std::ops::FnOnce", "call_once")] = c_call
